@@ -1,6 +1,7 @@
 (* C11 — Input bookkeeping: NR, FNR, FILENAME, operands, getline, ranges, next, exit.
-   Only statements closed by [exact] of a lemma proved in Proofs/, Print Assumptions,
-   non-vacuity examples and the [_refuted] witnesses of the two defects of the pinned tree.
+   Only statements closed by [exact] of a lemma proved in Proofs/, Print Assumptions and
+   non-vacuity examples.  The two defects the first build found (F-C11-1, F-C11-2) are repaired in
+   the tree; their former [_full_statement]s are theorems now (C11_next_anywhere..., C11_assign_value).
 
    Vocabulary (Model/Input.v, Proofs/Input*.v).  The AWK program is an ARBITRARY deterministic
    machine: a type [U] of program states, [step : U -> st -> req * U] (the next request of the
@@ -214,7 +215,7 @@ Theorem C11_range_rule :
   forall (U : Type) (step : U -> st -> req * U) (enter : blk -> U -> U) (e : env) fuel r i f u s p1 p2,
     rk r = PRange -> pure_pat U step enter e fuel (BPat i false) p1 -> pure_pat U step enter e fuel (BPat i true) p2 ->
     exists u', eval_pat U step enter e fuel r i f u s =
-               inr (fst (range_step (p1 (line s)) (p2 (line s)) f), snd (range_step (p1 (line s)) (p2 (line s)) f), u', s).
+               PVal (fst (range_step (p1 (line s)) (p2 (line s)) f)) (snd (range_step (p1 (line s)) (p2 (line s)) f)) u' s.
 Proof. exact eval_pat_range. Qed.
 Print Assumptions C11_range_rule.
 
@@ -239,7 +240,7 @@ Print Assumptions C11_range_program_prints.
 Theorem C11_next_unwinds :
   forall (U : Type) (step : U -> st -> req * U) (enter : blk -> U -> U) (e : env)
          fuel r rules i done f fl u s f' u1 s1 u2 s2,
-    eval_pat U step enter e fuel r i f u s = inr (true, f', u1, s1) -> has_body r = true ->
+    eval_pat U step enter e fuel r i f u s = PVal true f' u1 s1 -> has_body r = true ->
     run U step e fuel (enter (BBody i) u1) s1 = ROk ONext u2 s2 ->
     exec_rules U step enter e fuel (r :: rules) i done (f :: fl) u s = LCont u2 s2 (rev (f' :: done) ++ fl).
 Proof. exact exec_rules_next. Qed.
@@ -247,7 +248,7 @@ Proof. exact exec_rules_next. Qed.
 Theorem C11_nextfile_unwinds :
   forall (U : Type) (step : U -> st -> req * U) (enter : blk -> U -> U) (e : env)
          fuel r rules i done f fl u s f' u1 s1 u2 s2,
-    eval_pat U step enter e fuel r i f u s = inr (true, f', u1, s1) -> has_body r = true ->
+    eval_pat U step enter e fuel r i f u s = PVal true f' u1 s1 -> has_body r = true ->
     run U step e fuel (enter (BBody i) u1) s1 = ROk ONextfile u2 s2 ->
     exec_rules U step enter e fuel (r :: rules) i done (f :: fl) u s = LCont u2 (drop_file s2) (rev (f' :: done) ++ fl).
 Proof. exact exec_rules_nextfile. Qed.
@@ -257,38 +258,52 @@ Proof. exact drop_file_plan. Qed.
 Print Assumptions C11_next_unwinds.
 Print Assumptions C11_nextfile_unwinds.
 
-(* FULL statement of the property for next: wherever in a main rule it is executed -- also inside a
-   function called from the pattern expression -- the record is abandoned and the loop continues. *)
-Definition C11_next_anywhere_full_statement : Prop :=
+(* next anywhere in a main rule: also when it is executed inside a function called from the PATTERN
+   expression the record is abandoned and the loop continues (the former full statement; finding
+   F-C11-1 is repaired: execActions routes errNext/errNextfile from the pattern sites like from a body) *)
+Theorem C11_next_anywhere :
   forall (U : Type) (step : U -> st -> req * U) (enter : blk -> U -> U) (e : env)
          fuel r rules i done f fl u s u1 s1,
     rk r = PExpr ->
     run U step e fuel (enter (BPat i false) u) s = ROk ONext u1 s1 ->
     exec_rules U step enter e fuel (r :: rules) i done (f :: fl) u s = LCont u1 s1 (rev (f :: done) ++ fl).
+Proof. exact exec_rules_pat_next. Qed.
+Theorem C11_nextfile_anywhere :
+  forall (U : Type) (step : U -> st -> req * U) (enter : blk -> U -> U) (e : env)
+         fuel r rules i done f fl u s u1 s1,
+    rk r = PExpr ->
+    run U step e fuel (enter (BPat i false) u) s = ROk ONextfile u1 s1 ->
+    exec_rules U step enter e fuel (r :: rules) i done (f :: fl) u s = LCont u1 (drop_file s1) (rev (f :: done) ++ fl).
+Proof. exact exec_rules_pat_nextfile. Qed.
+(* from the start pattern of a closed range the flag stays off, from the stop pattern of an open range it stays on *)
+Theorem C11_next_from_range_start :
+  forall (U : Type) (step : U -> st -> req * U) (enter : blk -> U -> U) (e : env)
+         fuel r rules i done fl u s u1 s1,
+    rk r = PRange ->
+    run U step e fuel (enter (BPat i false) u) s = ROk ONext u1 s1 ->
+    exec_rules U step enter e fuel (r :: rules) i done (false :: fl) u s = LCont u1 s1 (rev (false :: done) ++ fl).
+Proof. exact exec_rules_range_start_next. Qed.
+Theorem C11_next_from_range_stop :
+  forall (U : Type) (step : U -> st -> req * U) (enter : blk -> U -> U) (e : env)
+         fuel r rules i done fl u s u1 s1,
+    rk r = PRange ->
+    run U step e fuel (enter (BPat i true) u) s = ROk ONext u1 s1 ->
+    exec_rules U step enter e fuel (r :: rules) i done (true :: fl) u s = LCont u1 s1 (rev (true :: done) ++ fl).
+Proof. exact exec_rules_range_stop_next. Qed.
+Print Assumptions C11_next_anywhere.
+Print Assumptions C11_nextfile_anywhere.
 
-(* witness: function f() { next }  f() { }   -- the faithful model (= interp.go execActions, which
-   returns the error value of the pattern) stops with the error "next" *)
+(* the former witness  function f() { next }  f() { }  END { T(9) }  over file "f" = [a; b]:
+   both records are read and abandoned, END runs, no error *)
 Definition wit_next_prog : sprog :=
-  mkProg [] [mkSRule (SPExpr (mkPat [SNext] CTrue)) (Some [])] [] [].
+  mkProg [] [mkSRule (SPExpr (mkPat [SNext] CTrue)) (Some [])] [STrace 9 []] [].
 Definition wit_env : env := mkEnv [([102], [[97]; [98]])] [] [] false.
-
-Theorem C11_next_anywhere_refuted : ~ C11_next_anywhere_full_statement.
-Proof.
-  intros H.
-  specialize (H (list stmt) (sstep wit_next_prog) (senter wit_next_prog) wit_env 5%nat
-                (mkRule PExpr true) [] 0%nat [] false [] [] (init_st [] [] []) [] (init_st [] [] [])
-                eq_refl eq_refl).
-  vm_compute in H. discriminate.
-Qed.
-Print Assumptions C11_next_anywhere_refuted.
-
-(* the whole run of the witness on file "f" = [a; b]: error, END would not run, status lost *)
 Example C11_ex_next_in_pattern :
-  match script_exec wit_env wit_next_prog 50 [[102]] [] with FErr _ s => NR s = 1 /\ out s = [] | _ => False end.
+  match script_exec wit_env wit_next_prog 50 [[102]] [] with
+  | FOk _ s => NR s = 2 /\ out s = [OTrace 9 2 2 [102] [98] 1 0 []]
+  | _ => False
+  end.
 Proof. vm_compute. split; reflexivity. Qed.
-
-(* the partial theorem is C11_next_unwinds above: guard = the next is executed in the rule BODY
-   ([run ... (enter (BBody i) ...) = ROk ONext]); the pattern case is finding F-C11-1. *)
 
 (* exit_semantics *)
 (* exit in BEGIN: the main loop is not entered; END (if any) runs once, from the state BEGIN left *)
@@ -318,7 +333,7 @@ Proof. exact exec_all_main_exit. Qed.
 Theorem C11_exit_in_rule_body :
   forall (U : Type) (step : U -> st -> req * U) (enter : blk -> U -> U) (e : env)
          fuel r rules i done f fl u s f' u1 s1 u2 s2 n,
-    eval_pat U step enter e fuel r i f u s = inr (true, f', u1, s1) -> has_body r = true ->
+    eval_pat U step enter e fuel r i f u s = PVal true f' u1 s1 -> has_body r = true ->
     run U step e fuel (enter (BBody i) u1) s1 = ROk (OExit n) u2 s2 ->
     exec_rules U step enter e fuel (r :: rules) i done (f :: fl) u s = LStop (OExit n) u2 s2.
 Proof. exact exec_rules_exit. Qed.
@@ -357,22 +372,17 @@ Print Assumptions C11_end_sees_last_record.
 (* ------------------------------------------------------------------------------------------ *)
 (* assignment operands: name=value *)
 
-(* FULL statement: an operand name=value with a well-formed name assigns exactly value *)
-Definition C11_assign_value_full_statement : Prop :=
-  forall c rest v, is_alpha_ c = true -> forallb name_char rest = true ->
-    parse_assign (c :: rest ++ 61 :: v) = Some (c :: rest, v).
-
-(* witness: the operand "g=a\nb": the faithful model (varRegex's dot-star) yields the value "a" *)
-Theorem C11_assign_value_refuted : ~ C11_assign_value_full_statement.
-Proof. intros H. specialize (H 103 [] [97; 10; 98] eq_refl eq_refl). vm_compute in H. discriminate. Qed.
-Print Assumptions C11_assign_value_refuted.
-
-(* partial: guard = the value contains no line feed (finding F-C11-2 is exactly the excluded class) *)
-Theorem C11_assign_value_partial : forall c rest v,
-  is_alpha_ c = true -> forallb name_char rest = true -> forallb (fun c => negb (c =? 10)) v = true ->
+(* an operand name=value with a well-formed name assigns exactly value, whatever bytes it contains
+   (the former full statement; finding F-C11-2 is repaired: varRegex carries the s flag) *)
+Theorem C11_assign_value : forall c rest v,
+  is_alpha_ c = true -> forallb name_char rest = true ->
   parse_assign (c :: rest ++ 61 :: v) = Some (c :: rest, v).
 Proof. exact parse_assign_spec. Qed.
-Print Assumptions C11_assign_value_partial.
+Print Assumptions C11_assign_value.
+
+(* the former witness: the operand "g=a\nb" now yields the value "a\nb" *)
+Example C11_ex_assign_newline : parse_assign [103; 61; 97; 10; 98] = Some ([103], [97; 10; 98]).
+Proof. vm_compute. reflexivity. Qed.
 
 (* ------------------------------------------------------------------------------------------ *)
 (* non-vacuity: the hypotheses are met by concrete programs, and the conclusions compute *)
@@ -422,7 +432,7 @@ Example C11_ex_pure_pat :
   pure_pat (list stmt) (sstep ex_range_prog) (senter ex_range_prog) ex_env 5 (BPat 0 false) (fun r => mem_byte 83 r).
 Proof. intros u s. exists []. reflexivity. Qed.
 
-(* assignment operand parsing: the guard of the partial theorem holds for "g0=x y" *)
+(* assignment operand parsing: "g0=x y" *)
 Example C11_ex_assign : parse_assign [103; 48; 61; 120; 32; 121] = Some ([103; 48], [120; 32; 121]).
 Proof. vm_compute. reflexivity. Qed.
 
